@@ -191,3 +191,34 @@ Proof.
   clearbody a b c d e f. subst.
   exact (proj1 text_rpp_sph_rcc_linked _ _ _ _ _ _ _ _ _ Hp).
 Qed.
+
+(* ---------- the no-TR body pipeline over any scalar (executed by the tie) ---------- *)
+Section BodyG.
+Context {T : Type} (S : Scalar T).
+Definition body_args_g (bd : B3.body) (toks : list string) (vals : list T) : list T * list N :=
+  match bd with
+  | B3.ARB => (firstn 24 vals, map (fun t => parse_digits t 0) (skipn 24 toks))
+  | _ => (vals, [])
+  end.
+Definition convert_text_body_g (txt : string) : E3.res (list (K3.t4e (T:=T))) :=
+  match parse_surface_card S txt with
+  | Err _ => E3.Err E3.EMacroBody
+  | Ok (bc, name, tr, ty, prm) =>
+      match body_of_type ty with
+      | None => E3.Err E3.EMacroBody
+      | Some bd =>
+          let '(p, d) := body_args_g bd (card_tokens txt) prm in
+          if is_empty tr then K3.body_t4 S None bd p d else E3.Err E3.EMacroBody
+      end
+  end.
+End BodyG.
+
+Lemma convert_text_body_g_RS txt bc name ty prm :
+  parse_surface_card RS txt = Ok (bc, name, "", ty, prm) ->
+  convert_text_body_g RS txt = convert_text_body [] txt.
+Proof.
+  intros Hp. unfold convert_text_body_g, convert_text_body. rewrite Hp.
+  destruct (body_of_type ty) as [bd|]; [|reflexivity].
+  change (body_args_g bd (card_tokens txt) prm) with (body_args bd (card_tokens txt) prm).
+  destruct (body_args bd (card_tokens txt) prm) as [p d]. reflexivity.
+Qed.
